@@ -956,3 +956,39 @@ def falsify_C20(ctx):
     return {"cases": len(ops) + len(rops) + len(qops) + 1, "nontrivial": len(nontrivial),
             "rule": "the same operations (well-formed task systems for the nine analyses, well-formed ROS 2 workloads, model queries) executed by three builds of the harness: debug assertions + overflow checks, optimised release, release + overflow checks; outcome = value / panic / hang; any difference or any panic/hang is a counterexample; non-trivial = distinct op with a proper value in all three builds",
             "counterexamples": cex, "samples": samples, "distribution": dist}
+
+
+# ---------------------------------------------------------------------------
+# C07: real ROS 2 analyses vs the executable naive Spec (RTA/Spec/NaiveRos.lean)
+
+def falsify_C07(ctx):
+    rng = random.Random(ctx["seed"] * 7919 + 7)
+    n = 1500 if ctx["tier"] == "quick" else 60000
+    from . import streams as st_mod
+    ops = []
+    for i in range(n):
+        k = rng.random()
+        o = (st_mod.stream_ros_e19(rng, 1) if k < 0.45 else st_mod.stream_ros_rr(rng, 1) if k < 0.7 else st_mod.stream_ros_bw(rng, 1))[0]
+        t = o.split()
+        t[-1] = str(min(int(t[-1]), 70))      # keep the naive evaluation cheap
+        ops.append(" ".join(t))
+    r = real(ops)
+    nv = common.run_parallel(common.lean_bin(), ["nv_" + o for o in ops])
+    cex, samples, nontrivial = [], [], set()
+    dist = {}
+    for op, a, b in zip(ops, r, nv):
+        kind = op.split()[0]
+        dist[kind] = dist.get(kind, 0) + 1
+        if b.startswith("ok") and b != "ok 0":
+            nontrivial.add(op)
+        if a == b:
+            if len(samples) < 4 and a.startswith("ok") and a != "ok 0" and kind in ("bw", "ros_es", "rr"):
+                samples.append({"op": op, "impl": a, "naive_all_offsets": b})
+            continue
+        lossy = kind in ("ros_tm", "ros_pp", "ros_ch") and a.startswith("ok") and \
+            ((b.startswith("ok") and int(a.split()[1]) <= int(b.split()[1])) or b.startswith("div"))
+        cex.append({"kind": "ros_not_naive", "op": op, "impl": a, "naive_all_offsets": b, "analysis": kind,
+                    "limit": int(op.split()[-1]), "pruned_below_all_offsets": lossy, "reasons": op_reasons(op)})
+    return {"cases": len(ops), "nontrivial": len(nontrivial),
+            "rule": "random ROS 2 workloads (all callback kinds, priorities, singleton and multi-callback subchains, all supplies incl. the default service_time) with limits <= 70: real result vs the executable naive Spec (every offset, linear-scan fixed points, service_time by linear scan); non-trivial = distinct op with a positive naive bound",
+            "counterexamples": cex, "samples": samples, "distribution": dist}
